@@ -230,7 +230,7 @@ pub fn objstm() -> DocSpec {
     slots.insert(5, Slot::RawCompressed { stm: 3, idx: 0 });
     slots.insert(6, Slot::RawCompressed { stm: 3, idx: 1 });
     slots.insert(7, Slot::RawCompressed { stm: 3, idx: 2 });
-    DocSpec { junk: vec![], revisions: vec![Revision { slots, objstms: vec![], style: XrefStyle::Stream { num: 8, w: [1, 3, 2], cuts: vec![], filter: StmFilter::None }, size: 9, root: Val::r(1), trailer: vec![], overrides: vec![] }] }
+    DocSpec { junk: vec![], revisions: vec![Revision { slots, objstms: vec![], style: XrefStyle::Stream { num: 8, w: [1, 3, 2], cuts: vec![], filter: StmFilter::None }, size: 9, root: Val::r(1), trailer: vec![], overrides: vec![] }], encrypt: None }
 }
 
 /// two revisions (classic then xref stream) whose trailer / xref-stream fields are attack surface
@@ -251,6 +251,7 @@ pub fn xref_fields(stream_first: bool) -> DocSpec {
             Revision { slots: s0, objstms: vec![], style: style0, size: size0, root: Val::r(1), trailer: vec![("ID".into(), Val::Arr(vec![Val::Str(b"a".to_vec()), Val::Str(b"a".to_vec())]))], overrides: vec![] },
             Revision { slots: s1, objstms: vec![], style: style1, size: size0 + 1, root: Val::r(1), trailer: vec![], overrides: vec![] },
         ],
+        encrypt: None,
     }
 }
 
@@ -409,6 +410,19 @@ pub fn long_chain() -> DocSpec {
     finish_classic(b, catalog)
 }
 
+/// the rich document written encrypted with a valid /O and /U (empty user password): the document
+/// opens, so that hostile structure meets the decryption of strings and streams
+pub fn encrypt_open(r: u8, key_len: usize, compress: bool) -> DocSpec {
+    let mut rng = Rng::new(7);
+    let mut layout = Layout::classic();
+    layout.encrypt = Some((r, key_len));
+    if compress {
+        layout.xref_stream = true;
+        layout.compress = true;
+    }
+    families::rich(&mut rng, &families::RichOpts::all(), &layout)
+}
+
 pub fn rich_all() -> DocSpec {
     let mut rng = Rng::new(7);
     families::rich(&mut rng, &families::RichOpts::all(), &Layout::classic())
@@ -426,6 +440,8 @@ pub fn all() -> Vec<(&'static str, DocSpec)> {
         ("xref_fields_stream_first", xref_fields(true)),
         ("encrypt", encrypt()),
         ("encrypt_v4", encrypt_v4()),
+        ("encrypt_open_rc4_128", encrypt_open(3, 16, false)),
+        ("encrypt_open_v4_objstm", encrypt_open(4, 16, true)),
         ("dag_pages", dag_pages()),
         ("annots", annots()),
         ("dag_trees", dag_trees()),
